@@ -263,6 +263,32 @@ func perSampleGraphs(e *emitter) []perSample {
 			{Op: "Mul", Ins: []string{"y", "y"}, Outs: []string{"sq"}},
 		}, Outputs: []string{"y", "sq", "r"}},
 		[]BatchIn{{"x", []int{0, 3}, 0}}})
+	// dense with biases that already have the per-sample output shape ([1, M]): for a single sample nothing
+	// needs broadcasting, so helpers may hand the weight itself back; the same bias feeds two nodes
+	out = append(out, perSample{"dense-bias-2d", &GraphJ{
+		Inputs: []VInfoJ{{Name: "x", Dt: "f32", Dims: []any{"N", 3}}},
+		Inits:  []InitJ{{Name: "w1", T: tinyT("f32", []int{4, 3}, 1)}, {Name: "c", T: tinyT("f32", []int{1, 4}, 2)}, {Name: "w2", T: tinyT("f32", []int{4, 4}, 3)}},
+		Nodes: []NodeJ{
+			{Op: "Gemm", Attrs: []Attr{{Name: "transB", Type: "i", I: 1}}, Ins: []string{"x", "w1", "c"}, Outs: []string{"h1"}},
+			{Op: "Gemm", Ins: []string{"h1", "w2", "c"}, Outs: []string{"h2"}},
+			{Op: "Add", Ins: []string{"h2", "c"}, Outs: []string{"h3"}},
+			{Op: "Sub", Ins: []string{"c", "h3"}, Outs: []string{"h4"}},
+		}, Outputs: []string{"h1", "h2", "h3", "h4"}},
+		[]BatchIn{{"x", []int{0, 3}, 0}}})
+	// wide samples: batches of 2 to 5 samples cross the sizes at which kernels switch strategy
+	// (block-wise / parallel loops start in the thousands of elements)
+	out = append(out, perSample{"wide-elementwise", &GraphJ{
+		Inputs: []VInfoJ{{Name: "x", Dt: "f32", Dims: []any{"N", 2500}}},
+		Inits:  []InitJ{{Name: "slope", T: tinyT("f32", []int{2500}, 1)}, {Name: "b", T: tinyT("f32", []int{2500}, 2)}},
+		Nodes: []NodeJ{
+			{Op: "PRelu", Ins: []string{"x", "slope"}, Outs: []string{"p"}},
+			{Op: "Relu", Ins: []string{"x"}, Outs: []string{"r"}},
+			{Op: "Abs", Ins: []string{"x"}, Outs: []string{"a"}},
+			{Op: "Add", Ins: []string{"p", "b"}, Outs: []string{"s"}},
+			{Op: "Mul", Ins: []string{"s", "r"}, Outs: []string{"m"}},
+			{Op: "ReduceMax", Attrs: []Attr{{Name: "axes", Type: "ints", Ints: []int64{1}}, {Name: "keepdims", Type: "i", I: 1}}, Ins: []string{"m"}, Outs: []string{"mx"}},
+		}, Outputs: []string{"p", "s", "m", "mx", "a"}},
+		[]BatchIn{{"x", []int{0, 2500}, 0}}})
 	// conv: Conv with bias + Relu + ReduceMax over the spatial axes
 	out = append(out, perSample{"conv", &GraphJ{
 		Inputs: []VInfoJ{{Name: "x", Dt: "f32", Dims: []any{"N", 2, 4, 3}}},
